@@ -787,6 +787,53 @@ theorem C04_refines_prune (d : Db) (cid : Nat) (h : Inv d) :
       | nil => exact absurd ⟨hyc, he⟩ hne
       | cons a as => simp
 
+/-- C04_refines, loop level, set_value of a NEW item ("… or adds a new scalar"), the composition cif_container_add_scalar runs on the
+    scalar loop `x` (found, or just created empty by create_loop_internal — `C04_refines_create_loop` with no names):
+    (a) cif_loop_add_item_internal reports the number `n` of packets the scalar loop has;
+    (b) after it the loop has the new name last and the value as last entry of every packet — so with one packet (n = 1) the job
+        is done: the scalar loop's only packet now also holds the new item;
+    (c) with no packet (n = 0) the following cif_loop_add_packet of {item ↦ value} gives the loop EXACTLY ONE packet, holding the
+        value for the new item and the unknown value for every other scalar item — `RowsBelow` holds here because the loop has no
+        packet, no extra hypothesis.  (The other scalar items get nothing STORED: the same omission as F30.) -/
+theorem C04_refines_set_value_new (d d1 : Db) (l : LH) (key orig : Str) (v : V) (n : Nat) (x : LoopRow) (h : Inv d) (hx : x ∈ d.loops)
+    (hxk : x.cid = l.cid ∧ x.loopNum = l.loopNum) (he : addItemBody l key orig v d = .ok (d1, n)) :
+    n = (absLoop d x).packets.length ∧
+    absLoop d1 x = { category := x.category, names := (absLoop d x).names ++ [orig],
+                     packets := (absLoop d x).packets.map (fun p => p ++ [v]) } ∧
+    (n = 0 → ∀ d2, addPacketBody l [(key, v)] d1 = .ok (d2, ()) →
+      (∀ cid', absLoops d2 cid' = (d1.loops.filter (fun y => y.cid == cid')).map (fun y =>
+          if y.cid == l.cid && y.loopNum == l.loopNum then
+            { absLoop d1 y with packets := [packetFor d1 l.cid l.loopNum [(key, v)]] }
+          else absLoop d1 y))) := by
+  have hcount := addItemBody_count d d1 l key orig v n x h hxk he
+  have hadd := addItem_refines d d1 l key orig v n x h hx hxk he
+  refine ⟨hcount, hadd.1, ?_⟩
+  intro hn d2 hp
+  have hinv1 : Inv d1 := addItemBody_inv l key orig v d d1 n h he
+  have hnil : (absLoop d x).packets = [] := by
+    cases hps : (absLoop d x).packets with
+    | nil => rfl
+    | cons a as => rw [hps] at hcount; simp at hcount; omega
+  have hnil1 : (absLoop d1 x).packets = [] := by rw [hadd.1, hnil]; rfl
+  have hrb : RowsBelow d1 l.cid l.loopNum := by
+    have := rowsBelow_of_no_packets d1 x hnil1
+    rw [hxk.1, hxk.2] at this; exact this
+  have hx1 : x ∈ d1.loops := by rw [hadd.2.2.1]; exact hx
+  have href := (addPacket_refines d1 d2 l [(key, v)] hinv1 hrb (by simp) hp).1
+  intro cid'
+  rw [href cid']
+  apply List.map_congr_left
+  intro y hy
+  cases hk : (y.cid == l.cid && y.loopNum == l.loopNum) with
+  | false => rfl
+  | true =>
+    simp only [if_true]
+    have hyk : y.cid = l.cid ∧ y.loopNum = l.loopNum := by simpa using hk
+    have hym := (List.mem_filter.mp hy).1
+    have : y = x := loopKey_unique d1.loops hinv1.loopPK y hym x hx1 (by rw [hyk.1, hxk.1]) (by rw [hyk.2, hxk.2])
+    rw [this, hnil1]
+    rfl
+
 /-- `absLoops` is what `abs` shows as the loops of a container -/
 theorem C04_absLoops_is_abs (d : Db) (fuel cid : Nat) (code : Str) : (absContainer d (fuel + 1) cid code).loops = absLoops d cid := by
   simp [absContainer, Container.loops, absLoops]
